@@ -31,12 +31,18 @@ import numpy as np
 from . import common
 
 PROP = "C09"
-MODULES = ["PdsVerif.Props.C09"]
+MODULES = ["PdsVerif.Props.CliTie", "PdsVerif.Props.C09"]
 MODEL_MODULES = ["PdsVerif.Model.Cli", "PdsVerif.Model.Stft"]
 REQUIRED = ["PdsVerif.C09." + n for n in """stftRows_eq_full kaldi_outputs kaldi_ids kaldi_pipeline kaldi_exit_code
     kaldi_unreadable_aborts torch_map torch_manifest_filter torch_outputs torch_listed_untouched
     torch_error_aborts torch_channel_rules torch_pipeline no_computer_is_column
-    seed_is_function_of_utterance seed_same_across_runs""".split()]
+    seed_is_function_of_utterance seed_same_across_runs""".split()] + ["PdsVerif.CliTie." + n for n in ["torchItem_seed", "chan_unspecified_eq", "chan_specified_eq", "picks_channel_eq", "posts_applied_eq", "nonneg_ok_iff", "nonneg_ok_zero", "rules_current_eq", "file_name_rule", "file_name_injective"]]
+
+def translate(repo):
+    """decision logic of signals-to-torch-feat-dir (command_line.py) -> Generated/CliConsts.lean (theorems: Props/CliTie.lean)"""
+    from .translate import cliconsts
+    return cliconsts.generate(repo)
+
 RULE = (
     "a case is one run of one tool: 0-8 utterances (mono / 2-3 channels / 1-D; lengths at 1, L//2, L//2+1, L, 2L+1 "
     "and random, so some yield zero frames; wrong sampling rate; below / exactly at / above --min-duration; "
